@@ -407,6 +407,10 @@ func TestC25Race(t *testing.T) {
 		}
 		cas.Order = c25GenOrder(rt, n)
 		c.Case("race-concurrent", vf.Hash(cas), true, func() interface{} { return cas })
+		// the race detector halts the process at the first report: leave the case behind for the driver
+		if b, jerr := json.Marshal(map[string]interface{}{"property": "C25", "check": "frames", "sig": "data-race-between-instances", "msg": "case running when the race detector fired", "case": cas}); jerr == nil {
+			os.WriteFile(c.Env.WorkDir+"/race-current.json", b, 0o644)
+		}
 		sig, err := c25RunFrames(cas)
 		if err != nil {
 			if !c.Fail("frames", sig, err.Error(), cas) {
